@@ -20,7 +20,7 @@ var rec = ev.New("C10")
 func TestMain(m *testing.M) { ev.Main(m, rec) }
 
 func TestC10(t *testing.T) {
-	rec.SetRule("registry: rapid-generated op lists (<=30 ops: register[replace]/registerWithEndpoint/remove/invalid{empty URL, no scheme, no host, empty model name at position i, cancelled ctx, nil entries}) over 3 endpoint URLs x 12-entry collision alphabet (a, A, a:latest, b, x::y, x, *, d@2 digests, p/q/b sharing one digest) x {memory, unified} x {sequential, concurrent rounds, concurrent burst; 2-4 goroutines owning disjoint endpoints}; compared with map[endpoint]set(name) after every step/round at quiescence. Non-trivial = a replace-with-fewer/replace-with-empty/remove that drops a model >=2 endpoints shared, or a rejected update after a successful one; distinct by full case. " +
+	rec.SetRule("registry: rapid-generated op lists (<=30 ops: register[replace]/registerWithEndpoint/remove/invalid{empty URL, no scheme, no host, empty model name at position i, cancelled ctx, remove with cancelled ctx / empty URL} and listings with nil entries) over 3 endpoint URLs x 12-entry collision alphabet (a, A, a:latest, b, x::y, x, *, d@2 digests, p/q/b sharing one digest) x {memory, unified} x {sequential, concurrent rounds, concurrent burst; 2-4 goroutines owning disjoint endpoints}; compared with map[endpoint]set(name) after every step/round at quiescence. Non-trivial = a replace-with-fewer/replace-with-empty/remove that drops a model >=2 endpoints shared, or a rejected update after a successful one; distinct by full case. " +
 		"filter: sequences of <=12 (name, include, exclude) lookups over tokens {x,y,a,A,X,b,::,:,*,-,latest}, patterns valid per FilterConfig.Validate, half of the later lookups derived from an earlier one so that name+\"::\"+pattern coincides; non-trivial = name or a pattern contains \"::\"; distinct by lookup. " +
 		"discovery: <=12 DiscoverEndpoint steps (scripted listing or client failure, per-endpoint filter via Endpoint.ModelFilter / SetEndpointFilterConfig by name / by URL) on one long-lived service; non-trivial = a listed name or pattern contains \"::\" and a filter is active.")
 	rec.Assume("quiescence of the unified registry's background unification is detected by runtime.NumGoroutine returning to its pre-operation value; a mismatch is only reported after the observation has additionally been stable over repeated polls (<=5 s)")
